@@ -111,6 +111,9 @@ def run(ctx, w):
 
 def trim_rules(ctx, w, S, R, T):
     E = w.E
+    ctx0 = ctx
+    sem = shared.gc_verdict(ctx0, w, S, T, "D1s")
+    ctx = shared.Deferred(ctx0, {"D1"}, sem)
     ctx.rule("D1", "the trim drains the prefix ..excess of the line vector and returns the drained lines")
     f = T.trim_fn
     TT = w.terms(f)
